@@ -243,8 +243,7 @@ def run(ctx):
                     else:
                         ctx.violation({"kind": "cycle-report-varies-between-runs"}, {"a": sorted(base[1]), "b": sorted(s[1]), "spec": ws.spec}, files=ws.files)
                     break
-            if i < 2:
-                ctx.sample({"spec": ws.spec})
+            ctx.sample({"spec": ws.spec})
             if i < (4 if quick else 60):
                 server_diagnostics(ctx, ws, model)
             ctx.count("graphs")
